@@ -15,7 +15,8 @@ params:
   cancel_at None | virtual time at which thread can1 cancels the output
   wait      None | [at, timeout]: thread wait1 calls concurrent.futures.wait([output], timeout) (recorded,
             never asserted: a cancelled plain Future output never releases it - D4, property C02)
-  fn_raise  f_traverse only: element (1-based) at which fn raises, or None
+  fn_raise  f_traverse only: element (1-based) at which fn raises, or None; fn_raise_type: "user" (default) |
+            "stop" (StopIteration: an exception like any other for the caller of fn) | "key" (KeyError)
   seq       None | list of input ids: no threads, the main thread completes these inputs in this order after
             the call (large-N cases)
   horizon   ticks
@@ -173,7 +174,7 @@ def build(p):
             E.emit("FnCall", k=x)
             E.upoint()
             if fn_raise == x:
-                exc = H.UserError("fn%d" % x)
+                exc = {"stop": StopIteration, "key": KeyError}.get(p.get("fn_raise_type"), H.UserError)("fn%d" % x)
                 E.emit("FnRaise", k=x, b=S.ident(exc, "val"))
                 raise exc
             E.emit("FnRet", k=x, f=pos[x - 1])
